@@ -99,6 +99,16 @@ func opBaseKey(in ssa.Instruction) string {
 		if f := x.Call.StaticCallee(); f != nil && len(x.Call.Args) > 0 {
 			return f.Name() + "(" + valueName(x.Call.Args[0]) + ")"
 		}
+		if f := x.Call.StaticCallee(); f != nil && len(x.Call.Args) == 0 && f.Pkg != nil && strings.HasPrefix(f.Pkg.Pkg.Path(), modulePath) {
+			// argument-less call of a module function (pause.Resume(), stats.SeedsFinishedIncr())
+			return f.Name() + "()"
+		}
+		if x.Call.StaticCallee() == nil && !x.Call.IsInvoke() {
+			if _, isB := x.Call.Value.(*ssa.Builtin); !isB {
+				// call through a function value (a closure calling itself through its variable)
+				return "dyn(" + valueName(x.Call.Value) + ")"
+			}
+		}
 	case *ssa.Defer:
 		if b, ok := x.Call.Value.(*ssa.Builtin); ok && b.Name() == "close" {
 			return "close(" + valueName(x.Call.Args[0]) + ")"
